@@ -8,7 +8,7 @@ import os
 import sys
 import time
 
-from lib import gN, gbool, glist
+from lib import gN, gbool, glist, lcg_bytes
 from props import c04
 
 FILES = {"zz_verif_common_test.go": "c04/common_driver_test.go",
@@ -34,9 +34,9 @@ LOOKALIKES = [
 ]
 
 
-def flight(tr, pid=0, flip=-1, trunc=0, as_prefix=-1, valid=True, no_reg=False):
+def flight(tr, pid=0, flip=-1, trunc=0, as_prefix=-1, valid=True, no_reg=False, flip_end=0, tag_of=""):
     return {"flight": {"transport": tr, "prefix_id": pid, "flip": flip, "trunc": trunc, "as_prefix": as_prefix,
-                       "valid": valid, "no_reg": no_reg}}
+                       "valid": valid, "no_reg": no_reg, "flip_end": flip_end, "tag_of": tag_of}}
 
 
 def gen_cases(ctx, table, scale):
@@ -93,7 +93,9 @@ def gen_cases(ctx, table, scale):
         mk("flip", [flight("min", flip=255), {"gen": [5, 40]}])
         for row in table:
             off = row["offset"]
-            spots = [8 * off + rng.randrange(0, 256), 8 * (off + 32) + rng.randrange(0, 256), 8 * (off + 64) - 1]
+            # bits 6 and 7 of the representative's last byte are masked off by the station (the client
+            # randomises them), so flipping them yields the same valid tag: not a probe
+            spots = [8 * off + rng.randrange(0, 254), 8 * (off + 32) + rng.randrange(0, 256), 8 * (off + 64) - 1]
             if off:
                 spots.append(rng.randrange(0, 8 * off))
             for b in (spots if scale > 1 or row["id"] in (0, 1, 5, 9) else spots[:2]):
@@ -119,12 +121,47 @@ def gen_cases(ctx, table, scale):
            ch=[[100, 10], [1000, 9000], [3000, 5000], [4400, -1]])
         mk("drain", [{"gen": [rng.randrange(1, 1 << 30), 600]}], regs="one-min",
            ch=[[10, 40], [1500, 100], [2500, 100], [4400, -1]])
+        # more data after every transport has given up (obfs4 is the last one, at 8192 bytes)
+        for regs in ("one-min", "many", "invalid"):
+            mk("drain", [{"gen": [rng.randrange(1, 1 << 30), 12000]}], regs=regs,
+               ch=[[50, 9000], [1500, 1000], [rng.randrange(2500, 4400), -1]])
         mk("late", [{"gen": [rng.randrange(1, 1 << 30), 300]}], ch=[[50, 100], [10600, -1]])
         # near misses that DO carry a valid tag (outside this property: they exercise the model's
         # give-up path in the correspondence and are not judged by the oracle)
         mk("validtag-wrongprefix", [flight("prefix", 2, as_prefix=1), {"gen": [8, 50]}], ch=[[10, 30], [700, -1], [3000, 0]])
         mk("validtag-wrongprefix", [flight("prefix", 9, as_prefix=0)], regs="many", ch=[[10, -1]])
+        mk("validtag-wrongtransport", [flight("prefix", 3, no_reg=True, tag_of="min"), {"gen": [8, 20]}], ch=[[10, 40], [600, -1], [2000, 0]])
+        mk("validtag-obfs4-badmac", [flight("obfs4", flip_end=3)], ch=[[10, 100], [500, -1]], regs="one-min")
     return cases
+
+
+def stream_bytes(r):
+    out = b""
+    for p in (r.get("parts") or []):
+        if p.get("gen"):
+            out += bytes(lcg_bytes(p["gen"][0], p["gen"][1]))
+        elif p.get("hex"):
+            out += bytes.fromhex(p["hex"])
+    return out
+
+
+def presents_tag(r, table):
+    """The property's precondition, decided from the oracle values observed on the real code
+    (independently of the Coq model): does the stream carry a valid tag for this phantom?"""
+    s = stream_bytes(r)
+    ids = set(x["id"] for x in (r.get("regs") or []))
+    if len(s) >= 32 and s[:32].hex() in ids:
+        return "min"
+    hit = set(x["off"] for x in (r.get("reveals") or []) if x["ids"])   # the driver reports registered identifiers only
+    for row in table:
+        if row["offset"] in hit and len(s) >= row["offset"] + 64 and s.startswith(bytes.fromhex(row["static"])):
+            return "prefix"
+    for m in (r.get("marks") or []):
+        mk = bytes.fromhex(m["mark"])
+        for e in range(141, min(len(s), 8192) + 1):
+            if s[e - 32:e - 16] == mk:
+                return "obfs4"
+    return None
 
 
 def judge(ctx, c, r, Ds):
@@ -176,13 +213,14 @@ def probe_term(r):
             parts.append(("hex", p["hex"]))
     reads = [x["n"] for x in (r.get("reads") or []) if not x.get("err")]
     rr = {"regs": r.get("regs") or [], "reveals": r.get("reveals"), "marks": r.get("marks"), "calls": r.get("calls") or [],
-          "tracked": r["tracked"], "ts": r["ts"], "status": 0, "echo": None}
-    conn = c04.conn_term(rr, parts, "Lit (@nil N)", True, reads=reads)
+          "tracked": r["tracked"], "ts": r["ts"], "status": r.get("status", 0), "echo": None}
+    found = any(cl["res"] == "found" for cl in (r.get("calls") or []))
+    conn = c04.conn_term(rr, parts, "Lit (@nil N)", not found, reads=reads)
     sd = [x for x in (r.get("set_deadline") or []) if x[1] > 0]
     D = int(round(sd[0][1])) if sd else 0
     quiet = all(cl["res"] in ("again", "not") for cl in (r.get("calls") or []))
     allreads = r.get("reads") or []
-    slept = not (allreads and allreads[-1].get("err") == "timeout")
+    slept = not found and not (allreads and allreads[-1].get("err") == "timeout")
     return "(Build_probe_case %s %s %s %s %s %s)" % (
         conn, glist(r.get("script") or [], lambda x: "(%s, %s)" % (gN(x[0]), gN(x[1]))), gN(D), gN(sum(reads)), gbool(quiet), gbool(slept))
 
@@ -247,7 +285,12 @@ def run(ctx):
         if r.get("err"):
             ctx.broken("driver", "probe could not be built: %s" % r["err"], {"case": c})
             continue
-        judged = not c["kind"].startswith("validtag")
+        tagged = presents_tag(r, table)
+        judged = tagged is None
+        if judged == c["kind"].startswith("validtag"):
+            # generator self-test: the probe classes are what they claim to be
+            ctx.broken("generator-selftest", "probe of kind %s %s a valid tag (%s)" % (c["kind"], "carries" if tagged else "does not carry", tagged),
+                       {"case": c, "parts": r.get("parts")})
         before = ctx.cov["oracle_failures"]
         if judged:
             judge(ctx, c, r, Ds)
@@ -268,7 +311,7 @@ def run(ctx):
                     "observed": {k: r.get(k) for k in ("set_deadline", "writes", "closes", "returned", "max_lag", "unread")}})
     if not ctx.replay:
         ctx.require_kinds(["random/ok", "lookalike/ok", "static/ok", "flip/ok", "short/ok", "unregistered/ok", "unvalidated/ok",
-                           "drain/ok", "late/ok", "validtag-wrongprefix/ok"] + ["regs:" + n for n in REGS])
+                           "drain/ok", "late/ok", "validtag-wrongprefix/ok", "validtag-wrongtransport/ok", "validtag-obfs4-badmac/ok"] + ["regs:" + n for n in REGS])
     lap("oracle + emit")
     mm = c04.coq_mismatches_retry(ctx, "probe", header(table), terms, "chk'", max(20, len(terms) // 16 + 1), ["C03/Run.vo"])
     lap("coq evaluation of %d probes" % len(terms))
